@@ -98,7 +98,7 @@ theorem reschedule_outs (s : State) :
 /-! ### the reachable-state invariant -/
 
 /-- the table key a flow was admitted under -/
-def ownKey (f : Flow) : Addr := flowKey f.client f.cfg.withPort
+def ownKey (f : Flow) : FKey := flowKey f.client f.cfg.withPort
 
 structure PhaseOk (f : Flow) : Prop where
   notClosing : f.phase ≠ .closing
@@ -475,36 +475,36 @@ theorem nextId_vacant {s : State} (hs : Str s) : get? s.slots (nextId s) = none 
     | some f => exact absurd (hs.slabBound _ f h') (by omega)
 
 /-- the state right after `flows.insert(flow)` + `table.insert(key, id)` -/
-def admitted (s : State) (key : Addr) (f : Flow) : State :=
+def admitted (s : State) (key : FKey) (f : Flow) : State :=
   { (slabInsert s f).1 with table := KMap.set (slabInsert s f).1.table key (slabInsert s f).2 }
 
-theorem admitted_slots (s : State) (key : Addr) (f : Flow) (j : Nat) :
+theorem admitted_slots (s : State) (key : FKey) (f : Flow) (j : Nat) :
     get? (admitted s key f).slots j = if j = nextId s then some f else get? s.slots j := by
   cases h : s.free <;> simp [admitted, slabInsert, nextId, h, get?_set]
 
-theorem admitted_table (s : State) (key : Addr) (f : Flow) (k : Addr) :
+theorem admitted_table (s : State) (key : FKey) (f : Flow) (k : FKey) :
     get? (admitted s key f).table k = if k = key then some (nextId s) else get? s.table k := by
   cases h : s.free <;> simp [admitted, slabInsert, nextId, h, get?_set]
 
-theorem admitted_len (s : State) (key : Addr) (f : Flow) : (admitted s key f).len = s.len + 1 := by
+theorem admitted_len (s : State) (key : FKey) (f : Flow) : (admitted s key f).len = s.len + 1 := by
   cases h : s.free <;> simp [admitted, slabInsert, h]
 
-theorem admitted_knobs (s : State) (key : Addr) (f : Flow) : SameKnobs s (admitted s key f) := by
+theorem admitted_knobs (s : State) (key : FKey) (f : Flow) : SameKnobs s (admitted s key f) := by
   cases h : s.free <;> exact ⟨by simp [admitted, slabInsert, h], by simp [admitted, slabInsert, h],
     by simp [admitted, slabInsert, h], by simp [admitted, slabInsert, h]⟩
 
-theorem admitted_outs (s : State) (key : Addr) (f : Flow) : (admitted s key f).outs = s.outs := by
+theorem admitted_outs (s : State) (key : FKey) (f : Flow) : (admitted s key f).outs = s.outs := by
   cases h : s.free <;> simp [admitted, slabInsert, h]
 
-theorem admitted_nil (s : State) (key : Addr) (f : Flow) (h : s.free = []) :
+theorem admitted_nil (s : State) (key : FKey) (f : Flow) (h : s.free = []) :
     (admitted s key f).free = [] ∧ (admitted s key f).nslots = s.nslots + 1 ∧ nextId s = s.nslots := by
   simp [admitted, slabInsert, nextId, h]
 
-theorem admitted_cons (s : State) (key : Addr) (f : Flow) {a : Nat} {rest : List Nat} (h : s.free = a :: rest) :
+theorem admitted_cons (s : State) (key : FKey) (f : Flow) {a : Nat} {rest : List Nat} (h : s.free = a :: rest) :
     (admitted s key f).free = rest ∧ (admitted s key f).nslots = s.nslots ∧ nextId s = a := by
   simp [admitted, slabInsert, nextId, h]
 
-theorem str_admitted {s : State} (hs : Str s) {key : Addr} {f : Flow}
+theorem str_admitted {s : State} (hs : Str s) {key : FKey} {f : Flow}
     (hnone : get? s.table key = none) (hkey : ownKey f = key) (hp : PhaseOk f) :
     Str (admitted s key f) := by
   have hvac := nextId_vacant hs
